@@ -64,6 +64,11 @@ type UEParams struct {
 	SetupOpt   int    `json:"setup_opt"` // optional top-level IEs of PDUSessionResourceSetupRequest
 	FiveQI     int    `json:"five_qi"`
 	SvcPDU     bool   `json:"svc_pdu"` // service accept re-activates the session (PDU list in the ICS request)
+	// Fill selects what the variable-length fields of the accept are filled with: 0 random octets,
+	// 1 octets that are IEIs/IE ids/length-like values, 2 the PDU address IEI 0x29 throughout,
+	// 3 repeated well-formed decoy PDU address IEs (29 05 01 a.b.c.d).
+	Fill     int `json:"fill,omitempty"`
+	CauseVal int `json:"cause_val,omitempty"` // 5GSM cause value when the cause IE is present (default #50)
 }
 
 // AMFParams are association-level choices of the network.
@@ -105,6 +110,9 @@ type Scenario struct {
 	Faults  []Fault    `json:"faults,omitempty"`
 	// Population is the number of distinct subscribers provisioned (IMSI .. IMSI+Population-1).
 	Population int `json:"population"`
+	// Subscribers, if set, lists the SUPI digits of the registering UEs explicitly (procedure-level
+	// runs; a subscriber may belong to another PLMN than the serving one: a roamer).
+	Subscribers []string `json:"subscribers,omitempty"`
 	// Quiet suppresses hex dumps in the event log (large population runs).
 	Quiet bool `json:"quiet,omitempty"`
 	// Rig specific free-form parameters (PS / LS rigs).
